@@ -140,6 +140,17 @@ class SequenceOfEncoder(encoder.SequenceOfEncoder):
         return null.join(chunks), True, True
 
 
+def _minOuterTagSet(asn1Spec):
+    # SET components are ordered by their outermost tags (X.680 8.6), an
+    # untagged CHOICE counts as the smallest outermost tag of its
+    # alternatives, nested untagged CHOICEs included (X.690 9.3)
+    if asn1Spec.typeId == univ.Choice.typeId and not asn1Spec.tagSet:
+        return min([_minOuterTagSet(namedType.asn1Object)
+                    for namedType in asn1Spec.componentType.namedTypes])
+
+    return asn1Spec.tagSet[-1:]
+
+
 class SetEncoder(encoder.SequenceEncoder):
     @staticmethod
     def _componentSortKey(componentAndType):
@@ -152,13 +163,7 @@ class SetEncoder(encoder.SequenceEncoder):
         if asn1Spec is None:
             asn1Spec = component
 
-        if asn1Spec.typeId == univ.Choice.typeId and not asn1Spec.tagSet:
-            if asn1Spec.tagSet:
-                return asn1Spec.tagSet
-            else:
-                return asn1Spec.componentType.minTagSet
-        else:
-            return asn1Spec.tagSet
+        return _minOuterTagSet(asn1Spec)
 
     def encodeValue(self, value, asn1Spec, encodeFun, **options):
 
